@@ -212,7 +212,8 @@ PROPS.update({
     },
     "C12": {
         "modules": ["VmMem.Props.C12", "VmMem.Props.C15x", "VmMem.Props.C12x"], "theorems": T("C12") + [t for t in T("C15x") if "drop" in t] + T("C12x"),
-        "runs": lambda tier: [{"world": "life", "n": 2500 if tier == "quick" else 60000}, runs_xbuild(tier)],
+        "runs": lambda tier: [{"world": "life", "n": 2500 if tier == "quick" else 60000}, runs_xbuild(tier)]
+        + with_proj(runs_xen(tier), {"ops": ["none"]}),   # the temporary windows of on-demand Xen regions are mappings too: oracle only
         "corpus": True,
         "trusted_base": ["Arc drops its value exactly when the last reference goes; munmap/mmap are the kernel's; /proc/self/maps reflects the mappings",
                          "rustc's borrow checker (programs quantifier)"],
